@@ -258,8 +258,9 @@ class ShadowLattice:
         if k is None:
             bit = 1 << i
             cands = [c for c in range(self.n) if self.extents[c] & bit]
-            k = next(c for c in cands
-                     if all(self.leq(c, d) for d in cands))
+            k = cands[0]                      # smallest extent (shortlex order) ...
+            if not all(self.leq(k, d) for d in cands):      # ... must be below all the others
+                raise AssertionError('no least concept containing the object')
             self._objc[i] = k
         return k
 
@@ -271,8 +272,9 @@ class ShadowLattice:
         if k is None:
             bit = 1 << j
             cands = [c for c in range(self.n) if self.intents[c] & bit]
-            k = next(c for c in cands
-                     if all(self.leq(d, c) for d in cands))
+            k = cands[-1]                     # largest extent ...
+            if not all(self.leq(d, k) for d in cands):      # ... must be above all the others
+                raise AssertionError('no greatest concept having the property')
             self._attc[j] = k
         return k
 
